@@ -603,6 +603,34 @@ def check_wire(run, keys, quick, samples, distinct):
                 expect.append(("stmt", tag, cur if cur is not None else (0 if dsh == "shard_0" else "any")))   # nothing selected: default_shard decides
         scns.append({"backends": backends, "toml": toml, "steps": steps})
         metas.append(expect)
+    # a transient checkout failure (the selected shard's only connection is held by another client) must not change the selection
+    def mk_toml_small(default_shard):
+        opts = {"query_parser_enabled": True, "query_parser_read_write_splitting": True, "automatic_sharding_key": "data.id",
+                "sharding_function": "pg_bigint_hash", "default_role": "any", "primary_reads_enabled": True}
+        if default_shard != "shard_0":
+            opts["default_shard"] = default_shard
+        return W.make_toml(general={"connect_timeout": 300}, pools={"db": {"opts": opts, "users": [{"pool_size": 1}],
+                           "shards": [{"servers": [["s0", "primary"]]}, {"servers": [["s1", "primary"], ["s1r", "replica"]]}, {"servers": [["s2", "primary"]]}]}})
+    for t in range(6 if quick else 60):
+        sel = r.choice([1, 2])
+        how = r.choice(["shard", "key"])
+        key = next(k for k in range(1, 200) if pg_partition(k, nsh) == sel)
+        tag1, tag2 = "tx%d_1" % t, "tx%d_2" % t
+        steps = [{"op": "connect", "c": "c1", "params": {"user": "u", "database": "db"}, "password": "pw"},
+                 {"op": "connect", "c": "c2", "params": {"user": "u", "database": "db"}, "password": "pw"}]
+        setsql = ("SET SHARD TO '%d'" % sel) if how == "shard" else ("SET SHARDING KEY TO '%d'" % key)
+        for c in ("c1", "c2"):
+            steps += [{"op": "send", "c": c, "msgs": [{"t": "Q", "sql": setsql}]}, {"op": "recv", "c": c}]
+        # c2 takes the only primary connection of the selected shard
+        steps += [{"op": "send", "c": "c2", "msgs": [{"t": "Q", "sql": "BEGIN"}]}, {"op": "recv", "c": "c2"},
+                  {"op": "send", "c": "c2", "msgs": [{"t": "Q", "sql": "INSERT INTO t VALUES (1) /*hold*/"}]}, {"op": "recv", "c": "c2"}]
+        # c1's write cannot get a connection: pool error after connect_timeout
+        steps += [{"op": "send", "c": "c1", "msgs": [{"t": "Q", "sql": "INSERT INTO t VALUES (2) /*%s*/" % tag1}]}, {"op": "recv", "c": "c1", "timeout_ms": 3000, "label": "refused"}]
+        steps += [{"op": "send", "c": "c2", "msgs": [{"t": "Q", "sql": "COMMIT"}]}, {"op": "recv", "c": "c2"}]
+        steps += [{"op": "send", "c": "c1", "msgs": [{"t": "Q", "sql": "SHOW SHARD"}]}, {"op": "recv", "c": "c1", "label": "show"}]
+        steps += [{"op": "send", "c": "c1", "msgs": [{"t": "Q", "sql": "INSERT INTO t VALUES (3) /*%s*/" % tag2}]}, {"op": "recv", "c": "c1"}]
+        scns.append({"backends": backends, "toml": mk_toml_small(["shard_0", "random"][t % 2]), "steps": steps})
+        metas.append([("after_refusal", (tag1, tag2), sel)])
     results = W.run_scenarios(wire, scns, timeout=60)
     n = 0
     for scn, expect, res in zip(scns, metas, results):
@@ -618,6 +646,22 @@ def check_wire(run, keys, quick, samples, distinct):
                 run.violation("counterexample", "custom command forwarded to a server: %r" % sql, {"input": scn["steps"], "backend": e["who"]})
         recvs = [e for e in res["events"] if e.get("ev") == "recv" and e.get("who") == "c1"]
         ri = 0
+        if expect and expect[0][0] == "after_refusal":
+            (tag1, tag2), want = expect[0][1], expect[0][2]
+            n += 1
+            distinct.add(("wire", "after_refusal", want, scn["toml"].count("random")))
+            refused = [e for e in recvs if e.get("label") == "refused"]
+            was_refused = bool(refused) and any(f.get("t") == "E" for f in refused[0]["frames"]) and tag1 not in where
+            run.cov["wire_refused_checkout_scenarios"] = run.cov.get("wire_refused_checkout_scenarios", 0) + (1 if was_refused else 0)
+            if was_refused:        # only then is the situation the one we want to judge
+                show = [e for e in recvs if e.get("label") == "show"]
+                rows = [f["cols"][0] for f in (show[0]["frames"] if show else []) if f.get("t") == "D"]
+                got = where.get(tag2)
+                if rows != [str(want)] or got is None or shard_of_backend[got] != want:
+                    run.violation("counterexample", "after a refused checkout (pool exhausted) the selected shard %d is lost: SHOW SHARD %r, next statement on %r" % (want, rows, got),
+                                  {"input": {"steps": scn["steps"]}, "expected_shard": want, "show": rows, "impl_backend": got})
+                    return n
+            continue
         for kind, arg, want in expect:
             n += 1
             distinct.add(("wire", kind, str(arg), want))
